@@ -512,6 +512,8 @@ class Runner:
             if not os.path.exists(rp):
                 # no trace was written: keep the log as the replay artefact
                 json.dump({"property": self.prop, "note": "test failed without writing a trace", "log_tail": text[-8000:]}, open(rp, "w"), indent=1)
+            if rc == 3 and not self.replay:
+                self.minimise_hang(i, rp)
             violations.append((i, rp, text))
         for k in sorted(known):
             print(k)
@@ -533,6 +535,56 @@ class Runner:
             return 2
         print("OK property=%s tier=%s cases=%d wall=%.1fs" % (self.prop, self.tier, sum(s["cases"] for s in stats), time.time() - self.t0))
         return 0
+
+    def minimise_hang(self, shard, rp, budget=24):
+        """Delta debugging of a watchdog journal (a history that ends in a call that never returns) over
+        subprocess replays: a candidate is kept when its replay is stopped by the watchdog again (exit 3)."""
+        try:
+            case = json.load(open(rp))
+            ops = case.get("ops")
+            if not isinstance(ops, list) or len(ops) < 3:
+                return
+            part = self.parts()[shard % len(self.parts())]
+            binp = self.bins[part["pkg"]]
+
+            def hangs(cand_ops):
+                nonlocal budget
+                if budget <= 0:
+                    return False
+                budget -= 1
+                c = dict(case, ops=cand_ops)
+                c.pop("failure", None)
+                f = os.path.join(self.bdir, "ddmin.json")
+                json.dump(c, open(f, "w"))
+                env = self.env()
+                env.update(VERIF_REPLAY_IN=f, VERIF_REPLAY_OUT=os.path.join(self.bdir, "ddmin.out.json"), VERIF_STATS=os.path.join(self.bdir, "ddmin.stats.json"))
+                try:
+                    r = subprocess.run([binp, "-test.run", "^%s$" % part["test"], "-test.timeout", "30s"], cwd=self.bdir, env=env, capture_output=True, timeout=40)
+                    return r.returncode == 3
+                except subprocess.TimeoutExpired:
+                    return False
+
+            last = ops[-1:]
+            body = ops[:-1]
+            size = max(1, len(body) // 2)
+            while size >= 1 and budget > 0:
+                i, removed = 0, False
+                while i < len(body) and budget > 0:
+                    cand = body[:i] + body[i + size:]
+                    if hangs(cand + last):
+                        body, removed = cand, True
+                    else:
+                        i += size
+                if not removed:
+                    size //= 2
+            if len(body) + 1 < len(ops):
+                case["ops"] = body + last
+                case["note"] = "journal minimised by the driver from %d to %d ops (delta debugging over subprocess replays)" % (len(ops), len(body) + 1)
+                if isinstance(case.get("failure"), dict):
+                    case["failure"]["step"] = len(body)
+                json.dump(case, open(rp, "w"), indent=1)
+        except Exception as e:  # minimisation is best effort
+            print("note: hang minimisation skipped:", repr(e))
 
     def write_evidence(self, stats, nviol, known, inconclusive, t):
         labels, hashes, samples, extra = {}, set(), [], {}
